@@ -257,6 +257,22 @@ def _stores_triangular(cls) -> bool:
         for st in init.body_without_docstring():
             if isinstance(st, ast.Assign) and len(st.targets) == 1 and isinstance(st.targets[0], ast.Name):
                 env[st.targets[0].id] = _subst_env(st.value, env)
+            if isinstance(st, ast.If):
+                # `if flag: x = f(x)` (optionally with an else arm) is the conditional expression in statement form
+                arms = []
+                for arm in (st.body, st.orelse):
+                    d = {}
+                    simple = True
+                    for a in arm:
+                        if isinstance(a, ast.Assign) and len(a.targets) == 1 and isinstance(a.targets[0], ast.Name):
+                            d[a.targets[0].id] = _subst_env(a.value, {**env, **d})
+                        elif not isinstance(a, ast.Pass):
+                            simple = False
+                    arms.append((d, simple))
+                if all(simple for _, simple in arms):
+                    for name in set(arms[0][0]) | set(arms[1][0]):
+                        prev = env.get(name, ast.Name(id=name, ctx=ast.Load()))
+                        env[name] = ast.IfExp(test=st.test, body=arms[0][0].get(name, prev), orelse=arms[1][0].get(name, prev))
             for c in ast.walk(st):
                 if isinstance(c, ast.Call) and norm(c.func).endswith("__init__"):
                     for k in c.keywords:
